@@ -6,8 +6,10 @@
     All theorems are about EVERY state reachable through [step] from the initial state by
     events that satisfy [ok]: any requests whatsoever from any number of connections, wake-up
     and timeout phases at any instants, connects, disconnects - where a request is processed
-    only on a connection that is not blocked, blocking pops are not sent inside MULTI, QUIT is a
-    disconnect.  A server whose event loop has ended ([b_crashed]) takes no step. *)
+    only on a connection that is not blocked and QUIT is a disconnect.  (Blocking pops inside
+    MULTI are included since repair d076b83: they answer nil in their EXEC slot.)  The event
+    loop never ends ([c13_never_crashes], since repair e1d4020); the hypothesis
+    [b_crashed = false] of the statements below is therefore always met. *)
 From Ferrous Require Import Base.Bytes Generated Model.Resp Model.Types Model.Strings Model.Lists
   Model.Server Model.Blocking Spec.BlockingSpec Proofs.BlockingFacts Proofs.BlockingCons Proofs.BlockingStrand.
 Open Scope Z_scope.
@@ -16,8 +18,7 @@ Open Scope Z_scope.
 (** the invariant: every waiter's connection is Blocked on that key with that deadline and
     operation and has no wake-up under way; every queued wake-up's connection is Blocked on that
     key and has no registration; at most one wake-up per connection; a Blocked connection
-    without a wake-up under way is registered on all its keys; no blocking pop is queued in a
-    MULTI; no connection has id 0 *)
+    without a wake-up under way is registered on all its keys; no connection has id 0 *)
 Theorem c13_invariant : forall pw st, reach pw st -> inv st.
 Proof. exact reach_inv. Qed.
 Theorem c13_agreement : forall pw st, reach pw st -> b_crashed (snd st) = false -> agree (snd st).
@@ -83,7 +84,7 @@ Proof. exact connect_disconnect_silent. Qed.
 (** a blocking call that is not answered at once is Blocked with deadline = arrival + timeout,
     and with no deadline when the timeout is 0 ("forever") *)
 Theorem c13_deadline : forall left now s b c dbi parts oms rep s' b' cn,
-  zlookup c (s_conns s) = Some cn ->
+  zlookup c (s_conns s) = Some cn -> c <> 0 ->
   h_bpop left now s b c dbi parts oms = (rep, s', b') ->
   (rep <> FNoResponse /\ b' = b) \/
   (rep = FNoResponse /\ exists tmo keys,
@@ -144,15 +145,16 @@ Proof. exact conservation. Qed.
 Theorem c13_no_duplicate : forall st P R, reach_g st P R ->
   forall db k x, 0 <= db -> ecount (db, k, x) R <= ecount (db, k, x) P.
 Proof. exact no_duplicate. Qed.
-(** in these histories the event loop never ends (the wake-up always finds a list or nothing) *)
-Theorem c13_no_crash : forall st P R, reach_g st P R -> b_crashed (snd st) = false.
-Proof. exact no_crash. Qed.
+(** the event loop never ends, whatever the requests (repair e1d4020: a wake-up on a key that
+    holds another type by then finds "nothing" instead of propagating WRONGTYPE out of the loop) *)
+Theorem c13_never_crashes : forall pw st, reach pw st -> b_crashed (snd st) = false.
+Proof. exact never_crashes. Qed.
 Theorem c13_history_reachable : forall evs st P R, reach_g st P R -> all_ok_cons st evs = true ->
   reach_g (fst (fst (gtrace st P R evs))) (snd (fst (gtrace st P R evs))) (snd (gtrace st P R evs)).
 Proof. exact gtrace_reach. Qed.
 
 (** ---- no stranding: the safety half of "served promptly" (partial: single-key blocking pops) ----
-    Full statement (refuted - classes reregister-no-recheck for multi-key calls, blocking-in-exec,
+    Full statement (refuted - classes reregister-no-recheck for multi-key calls,
     script-push-no-notify): in every reachable state a key that has a waiter holds at most as many
     elements as wake-ups are under way for it.  Proved for all histories of list-catalogue
     requests (as for conservation) in which every BLPOP/BRPOP names ONE key. *)
@@ -196,18 +198,23 @@ Example c13_no_leftover_refuted_behind_block :
   let st := run sys0 w_behind in
   out_to st 1 = [FNullArray] /\ b_blk (snd st) = [] /\ waiting st 0 (bs "r") = [1].
 Proof. vm_compute. repeat split; reflexivity. Qed.
-(** blocking-in-exec (open): connection 2 is Blocked on q, q holds an element nobody pops, the
-    wake-up went to the connection id 0 that does not exist *)
-Example c13_progress_refuted_blocking_in_exec :
-  all_ok sys0 w_exec = false /\
+(** blocking-in-exec (fixed d076b83; was: a waiter for the connection id 0 in front of the real
+    clients, EXEC reply with a NoResponse slot): the queued BLPOP answers nil in its slot, nothing is
+    registered for it, and connection 2 behind it is served by the push *)
+Example c13_blocking_in_exec_fixed :
+  all_ok sys0 w_exec = true /\
   let st := run sys0 w_exec in
-  list_at (fst st) 0 (bs "q") = [bs "v"] /\ waiting st 0 (bs "q") = [2] /\ out_to st 2 = [] /\
-  out_to st 1 = [FSimple (bs "OK"); FSimple (bs "QUEUED"); FArray [FNoResponse]].
+  out_to st 1 = [FSimple (bs "OK"); FSimple (bs "QUEUED"); FArray [FNullArray]] /\
+  out_to st 2 = [FArray [FBulk (bs "q"); FBulk (bs "v")]] /\
+  list_at (fst st) 0 (bs "q") = [] /\ waiting st 0 (bs "q") = [].
 Proof. vm_compute. repeat split; reflexivity. Qed.
-(** wrongtype-at-wake (fix proposed: patches/c13-wake-wrongtype): the event loop ends *)
-Example c13_crash_refuted_wrongtype_at_wake :
-  all_ok sys0 w_wrongtype = true /\ b_crashed (snd (run sys0 w_wrongtype)) = true.
-Proof. vm_compute. split; reflexivity. Qed.
+(** wrongtype-at-wake (fixed e1d4020; was: the event loop ended): the wake-up finds a string, the
+    client is registered again and keeps waiting *)
+Example c13_wrongtype_at_wake_fixed :
+  all_ok sys0 w_wrongtype = true /\
+  let st := run sys0 w_wrongtype in
+  b_crashed (snd st) = false /\ waiting st 0 (bs "q") = [1] /\ out_to st 1 = [] /\ b_wake (snd st) = [].
+Proof. vm_compute. repeat split; reflexivity. Qed.
 (** requeue-at-back (open): connection 1 blocked before connection 2, yet 2 is served and 1 waits *)
 Example c13_fifo_refuted_requeue_at_back :
   all_ok sys0 w_requeue = true /\
